@@ -404,6 +404,9 @@ func (ck *checker) random() {
 		specs = []randSpec{{6, 50, 4, 600, true}, {12, 50, 6, 400, true}, {40, 50, 12, 240, true}, {120, 50, 40, 80, false},
 			{300, 50, 80, 48, false}, {1000, 50, 250, 16, false}, {2000, 50, 400, 16, false}}
 	}
+	if os.Getenv("VERIF_ONLY") == "race-small" { // developer aid: a workload small enough for a -race build
+		specs = []randSpec{{300, 12, 80, 4, false}, {2000, 6, 400, 1, false}}
+	}
 	type task struct {
 		s  randSpec
 		id string
@@ -492,7 +495,7 @@ func (ck *checker) random() {
 		if tk.s.nKeys <= 300 {
 			dir := fmt.Sprintf("%s/persist-%d", ck.scratch, i)
 			os.MkdirAll(dir, 0o755)
-			st2 := db.NewDB(db.MemoryImpl, dir)
+			st2 := tl.NewStoreAt(dir)
 			t := tl.NewTrie(nil, st2)
 			bad := false
 			for _, b := range hist {
@@ -503,7 +506,7 @@ func (ck *checker) random() {
 			}
 			if !bad {
 				st2.Close()
-				st3 := db.NewDB(db.MemoryImpl, dir)
+				st3 := tl.NewStoreAt(dir)
 				t3 := tl.NewTrie(final.Root, st3)
 				if d := getAll(t3, final.Model, keys); d != "" {
 					c.Violation("get-mismatch-reloaded-store", fmt.Sprintf("[%s] after closing and reloading the store: %s", class, d),
@@ -665,7 +668,7 @@ func main() {
 	}
 	tA := time.Since(t0)
 	only := os.Getenv("VERIF_ONLY") // developer aid only
-	if only == "" || only == "rand" {
+	if only == "" || only == "rand" || only == "race-small" {
 		ck.random()
 	}
 	tB := time.Since(t0) - tA
